@@ -352,12 +352,14 @@ def check_normal_form(case, m, ctx, tag=""):
     exp_faces = nf["faces"]
     good = ctx.check(len(mfaces) == len(exp_faces), "faces:completed", f"{tag}{len(mfaces)} faces, expected {len(exp_faces)} (declared {nF0} + completed from cells, shared faces once)") and good
     if good:
-        for i, (f, g) in enumerate(zip(mfaces, exp_faces)):
-            # same vertex set and same orientation parity (cyclic rotation allowed), in per-cell order
-            same = key(f) == key(g) and any(f == g[s:] + g[:s] for s in range(len(g)))
-            if not ctx.check(same, "faces:completed", f"{tag}face {i} = {f}, expected {g} (up to rotation) - the face opposite each vertex, orientation pinned"):
-                good = False
-                break
+        # the statement fixes WHICH faces exist (every face of every cell, a shared face once, after the declared ones), not the order
+        # in which the completed ones are numbered nor which of their rotations / orientations is stored
+        got_keys = sorted(key(f) for f in mfaces[nF0:])
+        exp_keys = sorted(key(g) for g in exp_faces[nF0:])
+        if not ctx.check(got_keys == exp_keys and all(len(set(f)) == len(f) for f in mfaces[nF0:]), "faces:completed",
+                         f"{tag}faces completed from the cells {mfaces[nF0:][:8]}.. are not every face of every cell exactly once "
+                         f"(first differences: {sorted(set(got_keys) ^ set(exp_keys))[:4]}, {len(got_keys)} vs {len(exp_keys)})"):
+            good = False
     # face corners
     if good:
         fc = m.face_corners
